@@ -92,6 +92,8 @@ static void submit(item_t *it)
 		int viaflag = 0;
 		if (form >= 8) {
 			viaflag = (it->kind == K_BASYNC || it->kind == K_BSYNC) && (vrt_rand() & 1);
+			/* a BARRIER-flagged block object handed to dispatch_after is a barrier item when its timer fires */
+			if (it->kind == K_AFTER && (vrt_rand() & 1)) { viaflag = 1; it->eb = 1; }
 			made = dispatch_block_create(viaflag ? DISPATCH_BLOCK_BARRIER : 0, plain);
 			b = made;
 		}
@@ -408,6 +410,7 @@ static void check_execution(int nitems, int serial)
 	}
 }
 
+static uint64_t now_ms(void) { struct timespec ts; clock_gettime(CLOCK_MONOTONIC, &ts); return (uint64_t)ts.tv_sec * 1000 + (uint64_t)ts.tv_nsec / 1000000; }
 static void nop(void *c) { (void)c; }
 
 int main(int argc, char **argv)
@@ -479,6 +482,7 @@ int main(int argc, char **argv)
 		/* items still running when the flush was submitted may submit children (ping-pong) behind it:
 		 * flush again until nothing new was submitted and nothing is pending */
 		int n, clean = 0;
+		uint64_t flush_t0 = now_ms();
 		for (int round = 0; ; round++) {
 			while (atomic_load(&g_pending_resume) > 0) usleep(100);
 			int before = atomic_load(&g_nitems);
@@ -491,8 +495,10 @@ int main(int argc, char **argv)
 			 * started by then, and the second flush barrier waits for its drainer to finish it */
 			if (n == before + 1 && pending == 0 && atomic_load(&g_pending_resume) == 0) { if (++clean >= 2) break; }
 			else clean = 0;
-			if (round > 400) break;
-			if (pending) usleep(300);      /* dispatch_after items not due yet */
+			/* give up after 10 s: what has not run by then is reported as stranded by check_execution (dispatch_after
+			 * items are enqueued by the manager thread, which the perturbation slows down like any other) */
+			if (round > 200 && now_ms() - flush_t0 > 10000) break;
+			if (pending) usleep(300);
 		}
 		if (dispatch_group_wait(g_grp, dispatch_time(DISPATCH_TIME_NOW, 20ll * NSEC_PER_SEC)) != 0)
 			oracle_fail("C01", "dispatch_group_async items all ran but the group never emptied", 0, 0);
